@@ -11,6 +11,10 @@
 // Round 2 added: .proto file references as the input (protofile.go), custom options declared at every nesting
 // placement observed through every output encoding (options.go, textfmt.go), and import paths respelled in
 // non-canonical ways as planted compile errors (errors.go).
+//
+// Round 3 added: a workspace module without any .proto file next to the modules that are built, in v2 and v1
+// workspaces (bystander.go), and the configuration of the CLI runs as a dimension: input copied to memory, every
+// --error-format (cliconfig.go).
 package c01
 
 import (
@@ -45,6 +49,7 @@ type Case struct {
 	Note      string            `json:"note,omitempty"`
 	Format    string            `json:"format,omitempty"` // cli: output encoding of `buf build -o -#format=...` (empty = binpb)
 	Fault     *FaultPlan        `json:"fault,omitempty"`  // fault phase: the injected read fault
+	Config    *cliConfig        `json:"config,omitempty"` // cli: configuration of the run (nil = default: files read from disk, text diagnostics)
 }
 
 // WorldInfo is the structure of a world without the texts, enough to re-judge a recorded case.
@@ -52,6 +57,9 @@ type WorldInfo struct {
 	ModDirs  []string   `json:"mod_dirs"`
 	ModNames []string   `json:"mod_names"`
 	Files    []FileInfo `json:"files"`
+	// EmptyMods: directories of the modules without .proto files; NonProto: the files in them.
+	EmptyMods []string `json:"empty_mods,omitempty"`
+	NonProto  []string `json:"non_proto,omitempty"`
 }
 
 // FileInfo is the ownership record of one file.
@@ -62,7 +70,7 @@ type FileInfo struct {
 }
 
 func infoOf(w *World) *WorldInfo {
-	wi := &WorldInfo{ModDirs: w.ModDirs, ModNames: w.ModNames}
+	wi := &WorldInfo{ModDirs: w.ModDirs, ModNames: w.ModNames, EmptyMods: w.EmptyMods, NonProto: w.NonProto}
 	for _, f := range w.Files {
 		wi.Files = append(wi.Files, FileInfo{Path: f.Path, Module: f.Module, Ext: f.Ext})
 	}
@@ -149,6 +157,12 @@ func specKey(s *Spec) string {
 	k := fmt.Sprintf("%v|%v|%v|%v|%v|%d.%d", s.Kind, s.Syntax, s.Wkt, s.Mod, s.ModDirs, s.Shadow, s.ShadowWkts)
 	if s.Pkg != nil {
 		k += fmt.Sprintf("|pkg%v", s.Pkg)
+	}
+	if s.Bystander != 0 {
+		k += fmt.Sprintf("|bystander%d.%v", s.Bystander, s.BystanderFirst)
+	}
+	if s.V1 {
+		k += "|v1"
 	}
 	return k
 }
@@ -419,7 +433,9 @@ func run(r *evid.Run) {
 		"phase errors: 6 base workspaces x every token position x {delete, duplicate}, plus every import statement x 9 other spellings of its path (./p, p/, p/., /p, a//b, a/./b, a/../a/b, a/b/../b/c, nope/p: literally different from every file name, although a path-normalising storage layer maps most of them back to the file), API and CLI (absolute and relative input directory). " +
 		"phase protofile: the input is a .proto file reference: 25 DAG shapes on 3 files x assignment x package pattern (each file: own package, a shared package, no package statement: 27) x every file x include_package_files in {false, true}, API and (every fourth world) CLI. " +
 		"phase options: a custom option declared at each of 15 placements (file level, or inside message i1.i2.i3 of a binary message tree of depth 3; index 1 = not the first message of its parent) x extendee {File,Message,Field}Options x value {string, message literal, Any literal} x user {declaring file, importer in the same module, importer in another module} (quick: extendee and value rotate) + worlds with all 15 at once sharing extension numbers across extendees; API and CLI in every output encoding (binpb, json, txtpb, yaml; the text encodings are parsed back with a resolver made from the bare compiler's descriptors). phase cli also builds every world once in a text encoding (rotating). " +
-		"A case is distinct by (workspace, selection[, encoding]) resp. (base, file, token, operator); " +
+		"phase bystander: the workspace has one more module that contains no .proto file (3 content variants, listed last or first, v2 buf.yaml or v1 buf.work.yaml workspace) next to every DAG on <=2 files x assignment; every input directory, one --path or one --exclude-path (also over the non-proto files) and every .proto file reference, API and CLI: whenever that module is not targeted as a whole the build must succeed with the image of the targeted files. " +
+		"configuration dimension of the CLI runs: the files are copied to memory first (BUF_BETA_COPY_FILES_TO_MEMORY) or not, diagnostics are printed in each --error-format (text, json, msvs, junit, github-actions); errors phase: every case runs once in the default configuration and once with one setting changed (10 combinations with the directory form, rotating; thorough: the product, 20 runs), cli and bystander phases: every input directory once more from memory. " +
+		"A case is distinct by (workspace, selection[, encoding][, configuration]) resp. (base, file, token, operator); " +
 		"it is non-trivial if the image has >=2 files resp. the mutation is a compile error.")
 	r.Assume("the Protobuf compiler of the property is github.com/bufbuild/protocompile (the compiler buf links); it is run bare (own map resolver, standard imports, same SourceInfoMode, compiling exactly the reference targets) as the oracle")
 	r.Assume("dependencies with a commit are served by an in-process provider (bufmoduletesting.OmniProvider) and pinned in buf.lock; API observation point only (the CLI's registry client cannot be replaced offline)")
@@ -427,6 +443,8 @@ func run(r *evid.Run) {
 	r.Assume(".proto file references: the referenced file is targeted, with include_package_files also the files of ITS module that declare the same package; a file without a package statement has no package files (buf's documented behaviour); files of another module that declare the same package may or may not be targeted (both readings accepted)")
 	r.Assume("text encodings are compared by meaning: both sides are read with the reference resolver (custom options as typed extension fields, Any payloads re-encoded deterministically), because a text round trip does not preserve the byte order of unknown fields")
 	r.Assume("selections buf refuses by design (module directory as --path/--exclude-path, exclude containing a path) may error; when they build, the image is checked")
+	r.Assume("a selection that makes a module without .proto files a target as a whole (input = the workspace root or that module, no --path) may be refused (buf demands a .proto file of every module it is asked to build); with --path, a sibling module directory as the input or a .proto file reference that module is not a target and must not influence the build")
+	r.Assume("the path the user gave: `buf build <dir>` names a file <dir>/<path below dir> in every diagnostics format, with <dir> exactly as typed (absolute, or relative to the working directory: the scratch directories are reached through ../), whether the files are read from disk or from the in-memory copy")
 	r.Assume("the compiler reports unused imports only for the files it is asked to compile, so a non-targeted import never carries unused-dependency markers; this is taken as 'what the compiler produces'")
 
 	var items []worldItem
@@ -539,7 +557,7 @@ func run(r *evid.Run) {
 	r.Set("shadow_phase_worlds", nShadow)
 
 	phaseOn := func(p string) bool {
-		f := os.Getenv("C01_PHASES") // debugging aid: comma separated subset of graph,paths,shadow,remote,dup,fault,protofile,options,cli,errors
+		f := os.Getenv("C01_PHASES") // debugging aid: comma separated subset of graph,paths,shadow,remote,dup,fault,bystander,protofile,options,cli,errors
 		return f == "" || strings.Contains(","+f+",", ","+p+",")
 	}
 	if os.Getenv("C01_PHASES") != "" {
@@ -563,6 +581,9 @@ func run(r *evid.Run) {
 		}
 		if phaseOn("fault") {
 			rn.runFaultPhase()
+		}
+		if phaseOn("bystander") {
+			rn.runBystanderPhase(scratch)
 		}
 		if phaseOn("protofile") {
 			rn.runProtoFilePhase(scratch)
@@ -613,6 +634,10 @@ func run(r *evid.Run) {
 		"error_cases_import_respelled", "protofile_selections", "protofile_include_adds_package_files", "protofile_package_less_target_with_package_less_sibling",
 		"protofile_same_package_in_another_module", "protofile_cli_builds", "cli_images_json", "cli_images_txtpb", "cli_images_yaml",
 		"options_decl_depth_0", "options_decl_depth_3", "options_decl_under_non_first_message", "options_text_custom_option_values_expected",
+		"bystander_selections_targeting_the_empty_module", "bystander_not_targeted_by_module_dir_input", "bystander_not_targeted_by_path",
+		"bystander_not_targeted_by_file_reference", "bystander_cli_builds", "bystander_cli_builds_copy_to_memory", "bystander_worlds_v1", "bystander_worlds_listed_first",
+		"cli_error_runs_copy_to_memory", "cli_error_runs_copy_to_memory_relative_dir", "cli_error_runs_error_format_json", "cli_error_runs_error_format_msvs",
+		"cli_error_runs_error_format_junit", "cli_error_runs_error_format_github-actions", "cli_images_copy_to_memory",
 	} {
 		if rn.cnt[k] == 0 && !r.Expired() {
 			r.Incomplete("vacuous: counter " + k + " is zero")
